@@ -324,7 +324,8 @@ def run(chk):
         R.req("PUT", "/" + bk, query={"policy": ""}, body=json.dumps({"Statement": [{"Effect": "Allow", "Principal": "usr", "Action": "s3:*", "Resource": ["arn:aws:s3:::" + bk, "arn:aws:s3:::%s/*" % bk]}]}).encode())
         until = iso(datetime.datetime.utcnow() + datetime.timedelta(days=2))
         for kind in ("put", "copy", "multipart"):
-            for hname, hval in (("x-amz-object-lock-mode", "compliance"), ("x-amz-object-lock-mode", "Governance"), ("x-amz-object-lock-mode", "COMPLIANCE "), ("x-amz-object-lock-legal-hold", "on"), ("x-amz-object-lock-legal-hold", "On")):
+            for hname, hval in (("x-amz-object-lock-mode", "compliance"), ("x-amz-object-lock-mode", "Governance"), ("x-amz-object-lock-mode", "COMPLIANCE "), ("x-amz-object-lock-legal-hold", "on"), ("x-amz-object-lock-legal-hold", "On"),
+                                ("x-amz-object-lock-mode", "GOVERNANCE"), ("x-amz-object-lock-mode", "COMPLIANCE"), ("x-amz-object-lock-legal-hold", "ON")):
                 key = "hc-%s-%s" % (kind, hval.strip().lower() + str(len(hval)) + hname[-4:])
                 hd = {hname: hval}
                 if hname.endswith("mode"): hd["x-amz-object-lock-retain-until-date"] = until
@@ -332,6 +333,9 @@ def run(chk):
                 chk.case(("lock-header-spelling", kind, hname, hval), True); chk.traces += 1
                 chk.count("lock-header-spelling:%s:%s:%d" % (kind, hval.strip(), r.status))
                 if r.status != 200:
+                    if hval in ("GOVERNANCE", "COMPLIANCE", "ON"):
+                        chk.fail("c10:valid-lock-headers-refused:%s" % kind, "%s with the valid header %s: %s into a lock-enabled bucket answered %d %s: the upload cannot be given its protection" % (kind, hname, hval, r.status, r.code),
+                                 {"upload": kind, "header": "%s: %s" % (hname, hval), "status": r.status, "code": r.code})
                     continue          # refused: nothing was promised
                 vid = r.headers.get("x-amz-version-id")
                 dv, alive_ = survives(bk, key, vid)
